@@ -61,6 +61,19 @@ THEOREMS = [
     'C14.faultMesh_length', 'C14.mem_faultMesh', 'C14.faultMesh_unit', 'C14.faultMesh_nodup', 'C14.iterFaultMap_mesh',
     'C14.iterFaultMap_length', 'C14.shifts_single_layer', 'C14.single_layer_centered', 'C14.cutMult_exact',
     'C14.cutMult_minwidth',
+    # source tie: definitions regenerated from /repo's current source (Generated/SurfaceSource.lean) = the model
+    'C14.gen_initVectors_eq_model', 'C14.initVectors_div_exact', 'C14.gen_convertStart_eq_model',
+    'C14.gen_defaultMaxIndex_eq_model', 'C14.gen_planeNormal_eq_model', 'C14.gen_genVectors_eq_model',
+    'C14.gen_step1_eq_model', 'C14.gen_search1_eq_model', 'C14.cart_cross_of_icross_zero', 'C14.gen_step2_eq_model',
+    'C14.gen_search2_eq_model', 'C14.gen_reduceC_eq_model', 'C14.gen_basisABC_eq_model', 'C14.gen_orderRows_eq_model',
+    'C14.gen_hklForm_eq_model', 'C14.gen_fsb_signature', 'C14.gen_cutIndex_eq_model', 'C14.gen_cutRefuses_iff',
+    'C14.gen_withReplica_eq_model', 'C14.gen_relShift_eq_model', 'C14.gen_shifts_eq_model', 'C14.gen_vacuumRefuses_iff',
+    'C14.gen_vacuumBox_eq_model', 'C14.gen_cutMult_eq_model', 'C14.gen_surfacePbc_eq_model',
+    'C14.gen_freeSurface_signatures', 'C14.gen_aIndex_eq_model', 'C14.gen_faultpos_setters_eq_model',
+    'C14.gen_resolveFShift_eq_model', 'C14.gen_push_eq_model', 'C14.gen_stackingFault_signatures',
+    # the public entry point (form of hkl, return_hexagonal, centring key) end to end; the headline for the generated code
+    'C14.hklForm_refuses_iff', 'C14.hklForm_default', 'C14.planeOf_spec', 'C14.fsbEntry_correct',
+    'C14.fsbEntry_value_error_iff', 'C14.gen_free_surface_basis_correct',
 ]
 PARTIAL = {
     'isclose_as_exact_zero': 'np.isclose(x, 0) / np.isclose(mag, b_mag) / the arccos-based angle comparisons are modelled '
@@ -148,7 +161,11 @@ ASSUMPTIONS = [
     'fault plane are exempt from the mask / position comparison, atoms the model places on a periodic face may differ by '
     'a whole cell vector (floor of wrap is discontinuous there); np.isclose(x, 0.0) is |x| <= 1e-8 exactly',
 ]
-TRUSTED = ['numpy inside the implementation run', 'fractions.Fraction / numpy site census oracles in search()',
+TRUSTED = ['the reader in translate(): which Lean expression each recognised source form stands for (np.isclose(x, 0.0) '
+           '-> x = 0; norm comparisons -> squared lengths; angle < c_angle -> angleLt; np.isclose(angle, 0 / 180) -> '
+           'Parallel / AntiParallel; float quotient cast by dtype=int -> Int.tdiv; np.abs / np.sign / np.lcm / np.gcd on '
+           'ints -> natAbs / Int.sign / lcm / gcd); unrecognised forms raise TranslationError',
+           'numpy inside the implementation run', 'fractions.Fraction / numpy site census oracles in search()',
            "C16's theorems idx_cross_parallel / normal_is_reciprocal (imported, audited there), C05_Lemmas' "
            'atom_reconstruct, C04.replicaPos_eq / supersize_length (imported)']
 
@@ -164,6 +181,911 @@ P2C = {  # rows of vector_primitive_to_conventional (as Fractions); checked agai
     't1': [[F(2, 3), F(1, 3), F(1, 3)], [F(-1, 3), F(1, 3), F(1, 3)], [F(-1, 3), F(-2, 3), F(1, 3)]],
     't2': [[F(-2, 3), F(-1, 3), F(1, 3)], [F(1, 3), F(-1, 3), F(1, 3)], [F(1, 3), F(2, 3), F(1, 3)]],
 }
+
+
+# ----------------------------------------------------------------------------------------
+# translator: the checked source tie.  Every run regenerates lean/Atomman/Generated/SurfaceSource.lean from
+# /repo's CURRENT free_surface_basis.py / FreeSurface.py / StackingFault.py with `ast`; Proofs/C14_Source.lean
+# proves each generated definition equal to the hand model (`gen_..._eq_model`).  Anything the reader below does
+# not recognise raises TranslationError (never a silent pass).
+# ----------------------------------------------------------------------------------------
+import ast
+
+from ..translate import TranslationError
+
+GENERATED = ['SurfaceSource']
+_FSB = 'atomman/defect/free_surface_basis.py'
+_FS = 'atomman/defect/FreeSurface.py'
+_SF = 'atomman/defect/StackingFault.py'
+
+
+def _u(n):
+    return ast.unparse(n)
+
+
+def _te(msg, node=None):
+    raise TranslationError(msg + ((': ' + _u(node)[:160]) if node is not None else ''))
+
+
+def _nodoc(body):
+    if body and isinstance(body[0], ast.Expr) and isinstance(body[0].value, ast.Constant) \
+            and isinstance(body[0].value.value, str):
+        return body[1:]
+    return body
+
+
+def _find_fn(tree, name, cls=None, setter=False):
+    scope = tree.body
+    if cls is not None:
+        cs = [n for n in tree.body if isinstance(n, ast.ClassDef) and n.name == cls]
+        if len(cs) != 1:
+            _te(f'class {cls} not found exactly once')
+        scope = cs[0].body
+    fs = [n for n in scope if isinstance(n, ast.FunctionDef) and n.name == name
+          and any(_u(d) == f'{name}.setter' for d in n.decorator_list) == setter]
+    if len(fs) != 1:
+        _te(f'function {cls or ""}.{name} (setter={setter}) not found exactly once ({len(fs)})')
+    return fs[0]
+
+
+def _one(stmts, pred, what):
+    hit = [s for s in stmts if pred(s)]
+    if len(hit) != 1:
+        _te(f'{what}: expected exactly one statement, found {len(hit)}')
+    return hit[0]
+
+
+def _is_assign(s, target):
+    return isinstance(s, ast.Assign) and len(s.targets) == 1 and _u(s.targets[0]) == target
+
+
+def _defaults(fn):
+    """{argument: source text of its default} in signature order ('<required>' when there is none)."""
+    a = fn.args
+    if a.vararg or a.kwarg or a.kwonlyargs or a.posonlyargs:
+        _te(f'signature of {fn.name} has */** / keyword-only / positional-only arguments')
+    names = [x.arg for x in a.args]
+    dfl = ['<required>'] * (len(names) - len(a.defaults)) + [_u(d) for d in a.defaults]
+    return list(zip(names, dfl))
+
+
+def _lean_strs(xs):
+    return '[' + ', '.join('"' + x.replace('\\', '\\\\').replace('"', '\\"') + '"' for x in xs) + ']'
+
+
+def _sig_def(name, fn, drop_self=True):
+    d = _defaults(fn)
+    if drop_self and d and d[0][0] == 'self':
+        d = d[1:]
+    return (f'/-- signature of `{fn.name}`: argument names in order with the source text of each default. -/\n'
+            f'def {name} : List (String × String) :=\n  [' +
+            ', '.join(f'("{a}", "{v.replace(chr(34), chr(39))}")' for a, v in d) + ']\n')
+
+
+def _cond(node, leaves, env=None):
+    """boolean structure over recognised leaves (and / or / not); an unknown leaf is a TranslationError."""
+    key = _u(node)
+    if key in leaves:
+        v = leaves[key]
+        return v(env) if callable(v) else v
+    if isinstance(node, ast.BoolOp):
+        op = ' ∧ ' if isinstance(node.op, ast.And) else ' ∨ '
+        return '(' + op.join(_cond(v, leaves, env) for v in node.values) + ')'
+    if isinstance(node, ast.UnaryOp) and isinstance(node.op, ast.Not):
+        return '(¬ ' + _cond(node.operand, leaves, env) + ')'
+    _te('unrecognised condition', node)
+
+
+# ---- free_surface_basis -------------------------------------------------------------------
+
+_COMP = {'hkl[0]': 'hkl.x', 'hkl[1]': 'hkl.y', 'hkl[2]': 'hkl.z'}
+
+
+def _iex(n):
+    """integer expression of the starting-vector branches.  `x / y` inside `np.array(..., dtype=int)` is a float
+    quotient cast to int: truncation (`Int.tdiv`; the divisions are exact, `initVectors_div_exact`)."""
+    k = _u(n)
+    if k in _COMP:
+        return _COMP[k]
+    if k == 'm':
+        return 'm'
+    if isinstance(n, ast.Constant) and isinstance(n.value, int) and not isinstance(n.value, bool):
+        return str(n.value) if n.value >= 0 else f'({n.value})'
+    if isinstance(n, ast.UnaryOp) and isinstance(n.op, ast.USub):
+        return f'(-{_iex(n.operand)})'
+    if isinstance(n, ast.BinOp) and isinstance(n.op, ast.Mult):
+        return f'({_iex(n.left)} * {_iex(n.right)})'
+    if isinstance(n, ast.BinOp) and isinstance(n.op, ast.Div):
+        return f'(Int.tdiv {_iex(n.left)} {_iex(n.right)})'
+    _te('unrecognised integer expression', n)
+
+
+def _int_array(n):
+    if not (isinstance(n, ast.Call) and _u(n.func) == 'np.array' and len(n.args) == 1
+            and isinstance(n.args[0], ast.List) and len(n.args[0].elts) == 3
+            and [(k.arg, _u(k.value)) for k in n.keywords] == [('dtype', 'int')]):
+        _te('expected np.array([x, y, z], dtype=int)', n)
+    return '⟨' + ', '.join(_iex(e) for e in n.args[0].elts) + '⟩'
+
+
+def _init_leaf(stmts, ind):
+    pad = ' ' * ind
+    if len(stmts) == 1 and isinstance(stmts[0], ast.Raise):
+        if not _u(stmts[0].exc).startswith('ValueError('):
+            _te('the all-zero branch must raise ValueError', stmts[0])
+        return pad + 'none'
+    if len(stmts) != 4 or not all(isinstance(s, ast.Assign) and len(s.targets) == 1 for s in stmts) \
+            or [_u(s.targets[0]) for s in stmts] != ['m', 's', 'a_uvw', 'b_uvw']:
+        _te('a starting-vector branch must assign m, s, a_uvw, b_uvw', stmts[0] if stmts else None)
+    mv, sv = stmts[0].value, stmts[1].value
+    if isinstance(mv, ast.Constant) and mv.value == 1:
+        m = '1'
+    elif isinstance(mv, ast.Call) and _u(mv.func) == 'np.lcm' and len(mv.args) == 2 and not mv.keywords:
+        m = f'ilcm {_iex(mv.args[0])} {_iex(mv.args[1])}'
+    elif isinstance(mv, ast.Call) and _u(mv.func) == 'np.lcm.reduce' and len(mv.args) == 1 and not mv.keywords \
+            and isinstance(mv.args[0], ast.List) and len(mv.args[0].elts) == 3:
+        e = [_iex(x) for x in mv.args[0].elts]
+        m = f'ilcm (ilcm {e[0]} {e[1]}) {e[2]}'
+    else:
+        _te('unrecognised m', mv)
+    if not (isinstance(sv, ast.Call) and _u(sv.func) == 'np.sign' and len(sv.args) == 1 and not sv.keywords):
+        _te('unrecognised s', sv)
+    return (f'{pad}let m : Int := {m}\n{pad}some ⟨{_int_array(stmts[2].value)}, {_int_array(stmts[3].value)}, '
+            f'Int.sign {_iex(sv.args[0])}⟩')
+
+
+def _init_tree(node, ind):
+    pad = ' ' * ind
+    if isinstance(node, list):
+        if len(node) == 1 and isinstance(node[0], ast.If):
+            return _init_tree(node[0], ind)
+        return _init_leaf(node, ind)
+    t = node.test
+    if not (isinstance(t, ast.Compare) and len(t.ops) == 1 and isinstance(t.ops[0], ast.NotEq)
+            and _u(t.left) in _COMP and _u(t.comparators[0]) == '0'):
+        _te('branch test must be hkl[i] != 0', t)
+    return (f'{pad}if {_COMP[_u(t.left)]} ≠ 0 then\n{_init_tree(node.body, ind + 2)}\n{pad}else\n'
+            f'{_init_tree(node.orelse, ind + 2)}')
+
+
+_VNAME = {'a_uvw': 'a', 'b_uvw': 'b', 'c_uvw': 'c', 'hkl': 'hkl'}
+
+
+def _if_tree(node_or_list, leaves, assigns, defs, ind):
+    """an if / elif / else tree whose leaves are recognised sets of assignments -> nested Lean `if`."""
+    pad = ' ' * ind
+    stmts = node_or_list if isinstance(node_or_list, list) else [node_or_list]
+    stmts = [s for s in stmts if not (isinstance(s, ast.Assign) and _u(s) in defs)]
+    if not stmts:
+        return pad + 'st'
+    if len(stmts) == 1 and isinstance(stmts[0], ast.If):
+        s = stmts[0]
+        return (f'{pad}if {_cond(s.test, leaves)} then\n{_if_tree(s.body, leaves, assigns, defs, ind + 2)}\n'
+                f'{pad}else\n{_if_tree(s.orelse, leaves, assigns, defs, ind + 2)}')
+    key = frozenset(_u(s) for s in stmts)
+    if all(isinstance(s, ast.Assign) for s in stmts) and key in assigns:
+        return pad + assigns[key]
+    _te('unrecognised block in a search loop', stmts[0])
+
+
+def _parse(src):
+    import warnings
+    with warnings.catch_warnings():
+        warnings.simplefilter('ignore')
+        return ast.parse(src)
+
+
+def _gen_fsb(src):
+    tree = _parse(src)
+    fsb = _find_fn(tree, 'free_surface_basis')
+    body = _nodoc(fsb.body)
+    out = []
+    order = []      # (lineno, what) of the stages, must be increasing
+
+    out.append(_sig_def('fsbSignature', fsb, drop_self=False))
+
+    # -- the form of hkl / return_hexagonal (option handling at the head of the routine)
+    out.append(_gen_hkl_form(body, order))
+
+    # -- starting vectors
+    top = _one(body, lambda s: isinstance(s, ast.If) and _u(s.test) == 'hkl[0] != 0', 'starting-vector tree')
+    order.append((top.lineno, 'start'))
+    out.append('/-- the zero-pattern branches (`none` = ValueError). `Int.tdiv` = the float quotient cast by `dtype=int`. -/\n'
+               'def initVectors (hkl : IV) : Option Init :=\n' + _init_tree(top, 2) + '\n')
+
+    # -- conversion of the starting vectors to the primitive cell
+    cv = [s for s in body if isinstance(s, ast.If) and _u(s.test) == 'conventional_setting is not None'
+          and any(_is_assign(x, 'a_uvw') or _is_assign(x, 'b_uvw') for x in s.body)]
+    if len(cv) != 1:
+        _te('conversion of the starting vectors to the primitive cell not found exactly once')
+    order.append((cv[0].lineno, 'convert'))
+    lets = []
+    for s in cv[0].body:
+        if _u(s) == 'box = primitive_box':
+            continue
+        if not (isinstance(s, ast.Assign) and len(s.targets) == 1 and _u(s.targets[0]) in ('a_uvw', 'b_uvw')
+                and _u(s.value) == f'miller.vector_conventional_to_primitive({_u(s.targets[0])}, '
+                                   f'setting=conventional_setting)'):
+            _te('unrecognised statement in the conversion block', s)
+        v = _VNAME[_u(s.targets[0])]
+        lets.append(f'  let {v} := M3.vecMul {v} L')
+    out.append('/-- `miller.vector_conventional_to_primitive` applied to the starting vectors (`L` = centring matrix). -/\n'
+               'def convertStart (L : M3 Int) (a b : IV) : IV × IV :=\n' + '\n'.join(lets) + '\n  (a, b)\n')
+
+    # -- default maxindex
+    mi = _one(body, lambda s: isinstance(s, ast.If) and _u(s.test) == 'maxindex is None', 'default maxindex')
+    order.append((mi.lineno, 'maxindex'))
+    if len(mi.body) != 1 or mi.orelse or not _is_assign(mi.body[0], 'maxindex'):
+        _te('default maxindex block', mi)
+    v = mi.body[0].value
+    ok = (isinstance(v, ast.Call) and _u(v.func) == 'int' and len(v.args) == 1 and isinstance(v.args[0], ast.Call)
+          and _u(v.args[0].func) == 'np.max' and len(v.args[0].args) == 1 and isinstance(v.args[0].args[0], ast.List))
+    if not ok:
+        _te('default maxindex', v)
+    names = []
+    for e in v.args[0].args[0].elts:
+        if not (isinstance(e, ast.Call) and _u(e.func) == 'np.abs' and len(e.args) == 1 and _u(e.args[0]) in _VNAME):
+            _te('default maxindex entry', e)
+        names.append(_VNAME[_u(e.args[0])])
+    expr = f'absMax {names[0]}'
+    for nm in names[1:]:
+        expr = f'max ({expr}) (absMax {nm})'
+    out.append(f'/-- `int(np.max([...]))` over the absolute entries. -/\ndef defaultMaxIndex (a b hkl : IV) : Int := {expr}\n')
+
+    # -- plane normal
+    pn = _one(body, lambda s: _is_assign(s, 'planenormal'), 'planenormal')
+    order.append((pn.lineno, 'normal'))
+    want = 's * np.cross(vector_crystal_to_cartesian(a_uvw, box), vector_crystal_to_cartesian(b_uvw, box))'
+    v = pn.value
+    if not (isinstance(v, ast.BinOp) and isinstance(v.op, ast.Mult) and _u(v.left) == 's'
+            and isinstance(v.right, ast.Call) and _u(v.right.func) == 'np.cross' and len(v.right.args) == 2):
+        _te(f'planenormal is not {want}', v)
+    cs = []
+    for a in v.right.args:
+        if not (isinstance(a, ast.Call) and _u(a.func) == 'vector_crystal_to_cartesian' and len(a.args) == 2
+                and _u(a.args[0]) in ('a_uvw', 'b_uvw') and _u(a.args[1]) == 'box'):
+            _te('planenormal factor', a)
+        cs.append(f'(cart vects {_VNAME[_u(a.args[0])]})')
+    out.append('section\nvariable {K : Type} [Add K] [Sub K] [Mul K] [Zero K] [IntCast K] [LT K] [DecidableLT K] [DecidableEq K]\n')
+    out.append(f'def planeNormal (vects : M3 K) (s : Int) (a b : IV) : V3 K :=\n  V3.smul (s : K) (V3.cross {cs[0]} {cs[1]})\n')
+
+    # -- gen_vector
+    gvs = [s for s in body if isinstance(s, ast.FunctionDef) and s.name == 'gen_vector']
+    if len(gvs) != 1 or [a.arg for a in gvs[0].args.args] != ['n']:
+        _te('gen_vector(n) not found exactly once')
+    order.append((gvs[0].lineno, 'gen_vector'))
+    node = gvs[0].body
+    loops = []
+    for _ in range(3):
+        if not (len(node) == 1 and isinstance(node[0], ast.For) and _u(node[0].iter) == 'range(0, n + 1)'
+                and not node[0].orelse):
+            _te('gen_vector: expected `for xx in range(0, n+1)`', node[0] if node else None)
+        big = _u(node[0].target)
+        inner = node[0].body
+        if not (len(inner) == 1 and isinstance(inner[0], ast.For) and isinstance(inner[0].iter, ast.List)
+                and not inner[0].orelse):
+            _te('gen_vector: expected the sign loop', inner[0] if inner else None)
+        signs = [_u(e) for e in inner[0].iter.elts]
+        sg = _u(inner[0].target)
+        b2 = inner[0].body
+        if not (b2 and isinstance(b2[0], ast.Assign) and len(b2[0].targets) == 1
+                and _u(b2[0].value) == f'{sg} * {big}'):
+            _te('gen_vector: expected x = sx * xx', b2[0] if b2 else None)
+        loops.append((big, sg, signs, _u(b2[0].targets[0])))
+        node = b2[1:]
+    small = [l[3] for l in loops]
+    if not (len(node) == 2 and isinstance(node[0], ast.If) and len(node[0].body) == 1
+            and isinstance(node[0].body[0], ast.Continue) and not node[0].orelse
+            and isinstance(node[1], ast.Expr) and isinstance(node[1].value, ast.Yield)):
+        _te('gen_vector: innermost block')
+    skip = node[0].test
+    if not (isinstance(skip, ast.BoolOp) and isinstance(skip.op, ast.And)
+            and sorted(_u(v) for v in skip.values) == sorted(f'{x} == 0' for x in small)):
+        _te('gen_vector: skip condition', skip)
+    y = node[1].value.value
+    if not (isinstance(y, ast.Call) and _u(y.func) == 'np.array' and isinstance(y.args[0], ast.List)
+            and all(_u(e) in small for e in y.args[0].elts) and len(y.args[0].elts) == 3):
+        _te('gen_vector: yield', y)
+    ycomp = [_u(e) for e in y.args[0].elts]
+    skipc = ' ∧ '.join(f'{_u(v.left)} = 0' for v in skip.values)
+    txt = 'def genVectors (n : Int) : List IV :=\n'
+    for big, sg, signs, sm in loops:
+        txt += (f'  (List.range (n + 1).toNat).flatMap fun ({big} : Nat) => '
+                f'([{", ".join(signs)}] : List Int).flatMap fun {sg} =>\n  let {sm} : Int := {sg} * ({big} : Int)\n')
+    txt += f'  if {skipc} then [] else [(⟨{", ".join(ycomp)}⟩ : IV)]\n'
+    out.append('/-- `gen_vector(n)`: loop nesting, sign order, skipped vector and component order as coded. -/\n' + txt)
+
+    # -- the two searches
+    fors = [s for s in body if isinstance(s, ast.For) and _u(s.iter) == 'gen_vector(maxindex)' and _u(s.target) == 'uvw']
+    if len(fors) != 2:
+        _te(f'expected two loops over gen_vector(maxindex), found {len(fors)}')
+    norm_nnn = 'np.linalg.norm(vector_crystal_to_cartesian([maxindex, maxindex, maxindex], box))'
+
+    def pre(lo, hi, want):
+        got = {}
+        for s in body:
+            if lo < s.lineno < hi and isinstance(s, ast.Assign) and len(s.targets) == 1:
+                got[_u(s.targets[0])] = _u(s.value)
+        for k, v in want.items():
+            if got.get(k) not in (v if isinstance(v, tuple) else (v,)):
+                _te(f'initial value of {k} before the search is {got.get(k)!r}, expected {v!r}')
+    pre(gvs[0].lineno, fors[0].lineno, {'a_mag': norm_nnn, 'c_angle': ('90', '90.0'), 'a_uvw': 'None', 'c_uvw': 'None'})
+    pre(fors[0].lineno, fors[1].lineno, {'b_mag': norm_nnn, 'min_angle': ('180.0', '180'), 'b_uvw': 'None',
+                                         'a_cart': 'vector_crystal_to_cartesian(a_uvw, box)'})
+    defs1 = {'cart = vector_crystal_to_cartesian(uvw, box)', 'mag = np.linalg.norm(cart)',
+             'angle = vect_angle(cart, planenormal)'}
+    defs2 = {'cart = vector_crystal_to_cartesian(uvw, box)', 'mag = np.linalg.norm(cart)',
+             'angle = vect_angle(a_cart, cart)'}
+    for f, dd in ((fors[0], defs1), (fors[1], defs2)):
+        have = {_u(s) for s in ast.walk(f) if isinstance(s, ast.Assign)}
+        if not dd <= have:
+            _te(f'search loop: the definitions of cart / mag / angle changed: missing {sorted(dd - have)}')
+    leaves1 = {'np.isclose(np.dot(cart, planenormal), 0.0)': 'd = 0', 'mag < a_mag': 'm2 < st.aMag2',
+               'angle < c_angle': 'angleLt st.c d m2'}
+    assigns1 = {frozenset({'a_uvw = uvw', 'a_mag = mag'}): '{ st with a := some v, aMag2 := m2 }',
+                frozenset({'c_angle = angle', 'c_uvw = uvw'}): '{ st with c := some ⟨v, d, m2⟩ }'}
+    order.append((fors[0].lineno, 'search1'))
+    out.append('/-- initial state of the first search (`a_uvw = c_uvw = None`, `a_mag = |[n,n,n]|`, `c_angle = 90`). -/\n'
+               'def init1 (vects : M3 K) (n : Int) : S1 K := ⟨none, V3.normSq (cart vects ⟨n, n, n⟩), none⟩\n')
+    out.append('/-- body of the first loop: `d = cart·n`, `m2 = |cart|²`; `np.isclose(x, 0.0)` is `x = 0`, `mag < a_mag` the\n'
+               '    comparison of squared lengths, `angle < c_angle` is `angleLt` (positive side, larger squared cosine). -/\n'
+               'def step1 (vects : M3 K) (pn : V3 K) (st : S1 K) (v : IV) : S1 K :=\n'
+               '  let ct := cart vects v\n  let m2 := V3.normSq ct\n  let d := V3.dot ct pn\n'
+               + _if_tree(fors[0].body, leaves1, assigns1, defs1, 2) + '\n')
+    out.append('def search1 (vects : M3 K) (pn : V3 K) (n : Int) : S1 K :=\n'
+               '  (genVectors n).foldl (step1 vects pn) (init1 vects n)\n')
+    leaves2 = {'np.isclose(np.dot(cart, planenormal), 0.0)': 'd = 0',
+               'np.isclose(angle, 0.0)': 'Parallel aCart ct', 'np.isclose(angle, 180.0)': 'AntiParallel aCart ct',
+               'np.any(np.cross(a_uvw, uvw) != 0)': 'V3.cross a v ≠ (⟨0, 0, 0⟩ : IV)',
+               'np.dot(np.cross(a_cart, cart), planenormal) > 0': 'V3.dot (V3.cross aCart ct) pn > 0',
+               'np.isclose(mag, b_mag)': 'm2 = st.bMag2', 'angle < min_angle': 'angleLess st.bDot ad = true',
+               'mag < b_mag': 'm2 < st.bMag2'}
+    assigns2 = {frozenset({'b_uvw = uvw', 'b_mag = mag', 'min_angle = angle'}): '⟨some v, m2, some ad⟩'}
+    out.append('def init2 (vects : M3 K) (n : Int) : S2 K := ⟨none, V3.normSq (cart vects ⟨n, n, n⟩), none⟩\n')
+    out.append('/-- body of the second loop (`a` = the integer `a_uvw`, `aCart` its Cartesian image, `ad = a_cart·cart`):\n'
+               '    `np.isclose(angle, 0.0 / 180.0)` are `Parallel` / `AntiParallel`, equal angles between vectors of equal\n'
+               '    length are compared through `a_cart·cart` (`angleLess`). -/\n'
+               'def step2 (vects : M3 K) (pn : V3 K) (a : IV) (st : S2 K) (v : IV) : S2 K :=\n'
+               '  let aCart := cart vects a\n  let ct := cart vects v\n  let m2 := V3.normSq ct\n  let d := V3.dot ct pn\n'
+               '  let ad := V3.dot aCart ct\n'
+               + _if_tree(fors[1].body, leaves2, assigns2, defs2, 2) + '\n')
+    out.append('def search2 (vects : M3 K) (pn : V3 K) (a : IV) (n : Int) : S2 K :=\n'
+               '  (genVectors n).foldl (step2 vects pn a) (init2 vects n)\n')
+    out.append('end\n')
+
+    # -- asserts
+    asserts = [(s.lineno, _u(s.test)) for s in body if isinstance(s, ast.Assert)]
+    want_a = ['a_uvw is not None', 'c_uvw is not None', 'b_uvw is not None']
+    if [a for _, a in asserts] != want_a:
+        _te(f'asserts after the searches are {[a for _, a in asserts]}')
+    if not (fors[0].lineno < asserts[0][0] < asserts[1][0] < fors[1].lineno < asserts[2][0]):
+        _te('asserts are not placed after their searches')
+    out.append(f'/-- the searches that must succeed (AssertionError otherwise), in order. -/\ndef asserts : List String := {_lean_strs(want_a)}\n')
+
+    # -- gcd reduction
+    rd = _one(body, lambda s: _is_assign(s, 'c_uvw') and 'gcd' in _u(s.value), 'gcd reduction')
+    order.append((rd.lineno, 'reduce'))
+    order.append((fors[1].lineno, 'search2'))
+    if _u(rd.value) != 'c_uvw / np.gcd.reduce(np.asarray(c_uvw, dtype=int))':
+        _te('gcd reduction', rd.value)
+    if not (asserts[1][0] < rd.lineno < fors[1].lineno):
+        _te('gcd reduction is not between the two searches')
+    out.append('/-- `c_uvw / np.gcd.reduce(c_uvw)`. -/\ndef reduceC (v : IV) : IV := let g := gcd3 v; ⟨v.x / g, v.y / g, v.z / g⟩\n')
+
+    # -- row order
+    od = _one(body, lambda s: isinstance(s, ast.If) and _u(s.test).startswith('cutboxvector =='), 'row order')
+    order.append((od.lineno, 'order'))
+    txt = 'def orderRows? (cut : String) (a b c : IV) : Option (M3 Int) :=\n'
+    node = od
+    while True:
+        t = node.test
+        if not (isinstance(t, ast.Compare) and _u(t.left) == 'cutboxvector' and len(t.ops) == 1
+                and isinstance(t.ops[0], ast.Eq) and isinstance(t.comparators[0], ast.Constant)
+                and isinstance(t.comparators[0].value, str)):
+            _te('row order test', t)
+        if not (len(node.body) == 1 and _is_assign(node.body[0], 'uvws')):
+            _te('row order body', node.body[0])
+        v = node.body[0].value
+        if not (isinstance(v, ast.Call) and _u(v.func) == 'np.array' and len(v.args) == 1 and not v.keywords
+                and isinstance(v.args[0], ast.List) and len(v.args[0].elts) == 3
+                and all(_u(e) in ('a_uvw', 'b_uvw', 'c_uvw') for e in v.args[0].elts)):
+            _te('row order value', v)
+        rows = ', '.join(_VNAME[_u(e)] for e in v.args[0].elts)
+        txt += f'  if cut = "{t.comparators[0].value}" then some ⟨{rows}⟩ else\n'
+        if len(node.orelse) == 1 and isinstance(node.orelse[0], ast.If):
+            node = node.orelse[0]
+        elif not node.orelse:
+            break
+        else:
+            _te('row order: unexpected else', node.orelse[0])
+    out.append('/-- the `cutboxvector` chain (`none`: no branch taken). -/\n' + txt + '  none\n')
+
+    ls = [l for l, _ in order]
+    stages = ['form', 'start', 'convert', 'maxindex', 'normal', 'gen_vector', 'search1', 'reduce', 'search2', 'order']
+    if ls != sorted(ls) or [w for _, w in order] != stages:
+        _te(f'stages of free_surface_basis are out of order: {order}')
+    out.append('section\nvariable {K : Type} [Add K] [Sub K] [Mul K] [Zero K] [IntCast K] [LT K] [DecidableLT K] [DecidableEq K]\n')
+    out.append('/-- the routine up to the row order: the generated stages composed in the source order checked above\n'
+               '    (`fsbStages`); `value` = all-zero plane, `assert` = a search found nothing. -/\n'
+               'def basisABC (vects : M3 K) (hkl : IV) (L : M3 Int) (nOpt : Option Int) : Except String (ABC K) :=\n'
+               '  match initVectors hkl with\n  | none => .error "value"\n  | some ini =>\n'
+               '    let ab := convertStart L ini.a0 ini.b0\n'
+               '    let n := match nOpt with | some n => n | none => defaultMaxIndex ab.1 ab.2 hkl\n'
+               '    let pn := planeNormal vects ini.s ab.1 ab.2\n    let st1 := search1 vects pn n\n'
+               '    match st1.a, st1.c with\n    | some a, some cb =>\n      let c := reduceC cb.v\n'
+               '      let st2 := search2 vects pn a n\n      match st2.b with\n      | some b => .ok ⟨a, b, c, n, pn⟩\n'
+               '      | none => .error "assert"\n    | _, _ => .error "assert"\nend\n')
+    out.append(f'/-- the stages in source order. -/\ndef fsbStages : List String := {_lean_strs([w for _, w in order])}\n')
+    return out
+
+
+def _gen_hkl_form(body, order):
+    """hkl.shape / box.ishexagonal() / return_hexagonal handling -> (return 4 indices?, input converted from 4?)."""
+    top = _one(body, lambda s: isinstance(s, ast.If) and _u(s.test) == 'hkl.shape == (4,)', 'hkl form')
+    order.append((top.lineno, 'form'))
+    ic = [s for s in body if isinstance(s, ast.If) and _u(s.test) == 'np.allclose(hkl, np.asarray(hkl, dtype=int))']
+    if len(ic) != 1 or not (len(ic[0].orelse) == 1 and isinstance(ic[0].orelse[0], ast.Raise)
+                            and _u(ic[0].orelse[0].exc).startswith('ValueError(')):
+        _te('integer test of hkl (ValueError otherwise) not found')
+    leaves = {'hkl.shape == (4,)': 'len = 4', 'hkl.shape == (3,)': 'len = 3', 'box.ishexagonal()': 'hex = true',
+              'return_hexagonal is None': lambda env: f'{env["rh"]} = none',
+              'return_hexagonal': lambda env: f'{env["rh"]} = some true'}
+
+    def run(stmts, env, ind):
+        pad = ' ' * ind
+        if not stmts:
+            return f'{pad}.ok (decide ({env["rh"]} = some true), {env["conv"]})'
+        s, rest = stmts[0], stmts[1:]
+        if isinstance(s, ast.If):
+            return (f'{pad}if {_cond(s.test, leaves, env)} then\n{run(s.body + rest, env, ind + 2)}\n{pad}else\n'
+                    f'{run(s.orelse + rest, env, ind + 2)}')
+        if isinstance(s, ast.Raise):
+            if not _u(s.exc).startswith('ValueError('):
+                _te('hkl form: refusal is not a ValueError', s)
+            return f'{pad}.error "value"'
+        if _is_assign(s, 'return_hexagonal') and _u(s.value) in ('True', 'False'):
+            return run(rest, {**env, 'rh': f'(some {_u(s.value).lower()})'}, ind)
+        if _u(s) == 'hkl = miller.plane4to3(hkl)':
+            return run(rest, {**env, 'conv': 'true'}, ind)
+        _te('hkl form: unrecognised statement', s)
+    return ('/-- the head of `free_surface_basis`: `len` = number of indices given, `hex` = `box.ishexagonal()`, `rh` = the\n'
+            '    `return_hexagonal` argument.  Result: (return Miller-Bravais vectors?, plane converted with plane4to3?). -/\n'
+            'def hklForm (len : Nat) (hex : Bool) (rh : Option Bool) : Except String (Bool × Bool) :=\n'
+            + run([top], {'rh': 'rh', 'conv': 'false'}, 2) + '\n')
+
+
+# ---- FreeSurface / StackingFault ----------------------------------------------------------
+
+class _Ex:
+    """scalar / vector expressions over a field `K` (atoms: source text -> (lean, 'K' | 'V'))."""
+
+    def __init__(self, atoms):
+        self.atoms = atoms
+
+    def num(self, v):
+        fr_ = F(v)
+        if fr_ == 0:
+            return '0'
+        s = f'(({abs(fr_.numerator)} : Int) : K)'
+        if fr_.denominator != 1:
+            s = f'({s} / (({fr_.denominator} : Int) : K))'
+        return s if fr_ > 0 else f'(-{s})'
+
+    def tr(self, n):
+        k = _u(n)
+        if k in self.atoms:
+            return self.atoms[k]
+        if isinstance(n, ast.Constant) and isinstance(n.value, (int, float)) and not isinstance(n.value, bool):
+            return self.num(n.value), 'K'
+        if isinstance(n, ast.UnaryOp) and isinstance(n.op, ast.USub):
+            a, t = self.tr(n.operand)
+            return f'(-{a})', t
+        if isinstance(n, ast.BinOp):
+            a, ta = self.tr(n.left)
+            b, tb = self.tr(n.right)
+            if isinstance(n.op, (ast.Add, ast.Sub)) and ta == tb:
+                return f'({a} {"+" if isinstance(n.op, ast.Add) else "-"} {b})', ta
+            if isinstance(n.op, ast.Mult):
+                if ta == tb == 'K':
+                    return f'({a} * {b})', 'K'
+                if (ta, tb) == ('K', 'V'):
+                    return f'(V3.smul {a} {b})', 'V'
+                if (ta, tb) == ('V', 'K'):
+                    return f'(V3.smul {b} {a})', 'V'
+            if isinstance(n.op, ast.Div) and tb == 'K':
+                return (f'({a} / {b})', 'K') if ta == 'K' else (f'(vdiv {a} {b})', 'V')
+            if isinstance(n.op, ast.Pow) and ta == 'K' and _u(n.right) == '2':
+                return f'({a} * {a})', 'K'
+        _te('unrecognised expression', n)
+
+    def cmp(self, n):
+        if isinstance(n, ast.BoolOp):
+            return '(' + (' ∧ ' if isinstance(n.op, ast.And) else ' ∨ ').join(self.cmp(v) for v in n.values) + ')'
+        if isinstance(n, ast.Compare) and len(n.ops) == 1:
+            a, ta = self.tr(n.left)
+            b, tb = self.tr(n.comparators[0])
+            op = {ast.Lt: '<', ast.Gt: '>', ast.LtE: '≤', ast.GtE: '≥'}.get(type(n.ops[0]))
+            if op and ta == tb == 'K':
+                return f'{a} {op} {b}'
+        _te('unrecognised comparison', n)
+
+
+def _chain_by_cut(stmts, what):
+    """`if <x>cutboxvector == 'a': ... elif ... 'b' ... elif ... 'c'` -> {'a': body, ...}."""
+    s0 = [s for s in stmts if isinstance(s, ast.If) and _u(s.test) in ("cutboxvector == 'a'", "self.cutboxvector == 'a'")]
+    if len(s0) != 1:
+        _te(f'{what}: chain over cutboxvector not found exactly once')
+    node, res, var = s0[0], {}, _u(s0[0].test).split(' ==')[0]
+    while True:
+        t = _u(node.test)
+        if not (t.startswith(var + " == '") and t[-2] in 'abc' and len(t) == len(var) + 7):
+            _te(f'{what}: chain test', node.test)
+        res[t[-2]] = node.body
+        if len(node.orelse) == 1 and isinstance(node.orelse[0], ast.If):
+            node = node.orelse[0]
+        elif not node.orelse:
+            break
+        else:
+            _te(f'{what}: unexpected else', node.orelse[0])
+    if sorted(res) != ['a', 'b', 'c']:
+        _te(f'{what}: branches {sorted(res)}')
+    return s0[0], res
+
+
+def _cut_match(name, typ, rows, doc):
+    return (f'/-- {doc} -/\ndef {name} : Cut → {typ}\n' + ''.join(f'  | .{c} => {rows[c]}\n' for c in 'abc'))
+
+
+def _gen_fs(src):
+    tree = _parse(src)
+    out = []
+    init = _find_fn(tree, '__init__', 'FreeSurface')
+    ib = _nodoc(init.body)
+    out.append(_sig_def('freeSurfaceInitSignature', init))
+    # cut-vector compatibility test and cutindex
+    top, br = _chain_by_cut(ib, 'FreeSurface.__init__')
+    vec = {'avect': 'r0', 'bvect': 'r1', 'cvect': 'r2'}
+    comp = {'0': 'x', '1': 'y', '2': 'z'}
+    ci, chk = {}, {}
+    for c, bd in br.items():
+        if not (len(bd) == 2 and isinstance(bd[0], ast.If) and len(bd[0].body) == 1 and isinstance(bd[0].body[0], ast.Raise)
+                and _u(bd[0].body[0].exc).startswith('ValueError(') and not bd[0].orelse and _is_assign(bd[1], 'cutindex')
+                and _u(bd[1].value) in comp):
+            _te('FreeSurface.__init__: cut branch', bd[0])
+        ci[c] = _u(bd[1].value)
+        t = bd[0].test
+        if not (isinstance(t, ast.BoolOp) and isinstance(t.op, ast.Or)):
+            _te('cut compatibility test', t)
+        parts = []
+        for v in t.values:
+            if not (isinstance(v, ast.Compare) and len(v.ops) == 1 and isinstance(v.ops[0], ast.NotEq)
+                    and _u(v.comparators[0]) in ('0.0', '0') and isinstance(v.left, ast.Subscript)
+                    and _u(v.left.value).startswith('rcell.box.') and _u(v.left.value)[10:] in vec
+                    and _u(v.left.slice) in comp):
+                _te('cut compatibility term', v)
+            parts.append(f'n.{vec[_u(v.left.value)[10:]]}.{comp[_u(v.left.slice)]} ≠ 0')
+        chk[c] = ' ∨ '.join(parts)
+    out.append(_cut_match('cutIndex', 'Nat', ci, '`cutindex` for each `cutboxvector`.'))
+    out.append('/-- refusal test of `FreeSurface.__init__` on the (LAMMPS-normal) vectors `n` of the rotated cell. -/\n'
+               'def cutRefuses {K : Type} [Zero K] (cut : Cut) (n : M3 K) : Prop :=\n  match cut with\n'
+               + ''.join(f'  | .{c} => {chk[c]}\n' for c in 'abc'))
+    # width, layers, replica, shifts
+    def need(target, text, what):
+        s = _one(ib, lambda s: _is_assign(s, target) and _u(s.value) == text, what)
+        return s.lineno
+    l_w = need('rcellwidth', 'rcell.box.vects[cutindex, cutindex]', 'rcellwidth')
+    l_nd = need('numdec', '-int(np.floor(np.log10(tol)))', 'numdec')
+    l_un = _one(ib, lambda s: _u(s) == '_, unique_indices = np.unique(pos[:, cutindex].round(numdec), return_index=True)',
+                'np.unique of the rounded coordinates').lineno
+    l_co = need('coords', 'pos[unique_indices, cutindex]', 'layer representatives')
+    rp = _one(ib, lambda s: isinstance(s, ast.If) and 'np.isclose' in _u(s.test), 'replica test')
+    if _u(rp.test) != 'not np.isclose(coords[-1] - coords[0], rcellwidth, rtol=0.0, atol=tol)' or rp.orelse \
+            or [_u(s) for s in rp.body] != ['coords = np.append(coords, coords[0] + rcellwidth)']:
+        _te('replica test / append', rp)
+    ex = _Ex({'coords[-1]': ('l', 'K'), 'coords[0]': ('f', 'K'), 'rcellwidth': ('W', 'K'), 'tol': ('tol', 'K'),
+              'coords[1:]': ('pq.2', 'K'), 'coords[:-1]': ('pq.1', 'K'), 'relshifts': ('r', 'K')})
+    t = rp.test.operand
+    diff = ex.tr(ast.BinOp(left=t.args[0], op=ast.Sub(), right=t.args[1]))[0]
+    out.append('section\nvariable {K : Type} [Add K] [Sub K] [Mul K] [Div K] [Neg K] [Zero K] [IntCast K] [LT K] [DecidableLT K]\n')
+    out.append('def vdiv (v : V3 K) (k : K) : V3 K := ⟨v.x / k, v.y / k, v.z / k⟩\n')
+    out.append('/-- append the periodic replica unless `np.isclose(last - first, W, rtol=0.0, atol=tol)` (`|x| ≤ tol`). -/\n'
+               'def withReplica (coords : List K) (W tol : K) : List K :=\n  match coords.head?, coords.getLast? with\n'
+               f'  | some f, some l => if absLe {diff} tol then coords else coords ++ [{ex.tr(rp.body[0].value.args[1])[0]}]\n'
+               '  | _, _ => coords\n')
+    rs = _one(ib, lambda s: _is_assign(s, 'relshifts'), 'relshifts')
+    out.append(f'/-- `relshifts` before folding, for one pair of neighbouring layers `pq = (coords[i], coords[i+1])`. -/\n'
+               f'def rawRel (W : K) (pq : K × K) : K := {ex.tr(rs.value)[0]}\n')
+    folds = [s for s in ib if isinstance(s, ast.AugAssign) and _u(s.target).startswith('relshifts[')]
+    txt = 'def foldRel (W r : K) : K :=\n'
+    for s in folds:
+        if not (isinstance(s.target, ast.Subscript) and _u(s.target.value) == 'relshifts'
+                and isinstance(s.op, (ast.Add, ast.Sub))):
+            _te('fold of relshifts', s)
+        op = '+' if isinstance(s.op, ast.Add) else '-'
+        txt += f'  let r := if {ex.cmp(s.target.slice)} then r {op} {ex.tr(s.value)[0]} else r\n'
+    if len(folds) != 2 or not (rs.lineno < folds[0].lineno < folds[1].lineno):
+        _te('expected two masked updates of relshifts after its definition')
+    out.append('/-- the two masked updates `relshifts[mask] -= / += rcellwidth`, applied one after the other. -/\n' + txt + '  r\n')
+    sh = _one(ib, lambda s: _is_assign(s, 'shifts'), 'shifts')
+    if _u(sh.value) != 'np.outer(np.sort(relshifts), ovect)':
+        _te('shifts', sh.value)
+    out.append('/-- `np.sort(relshifts)` along the cut. -/\ndef shifts (coords : List K) (W tol : K) : List K :=\n'
+               '  sortAsc ((consec (withReplica coords W tol)).map fun pq => foldRel W (rawRel W pq))\n')
+    if not (top.lineno < l_w < l_nd < l_un < l_co < rp.lineno < rs.lineno and folds[1].lineno < sh.lineno):
+        _te('FreeSurface.__init__: statements out of order')
+
+    # surface()
+    sf = _find_fn(tree, 'surface', 'FreeSurface')
+    sb = _nodoc(sf.body)
+    out.append('end\n')
+    out.append(_sig_def('freeSurfaceSurfaceSignature', sf))
+    sm = _one(sb, lambda s: isinstance(s, ast.If) and _u(s.test) == 'sizemults is None', 'default sizemults')
+    if [_u(s) for s in sm.body] != ['sizemults = [1, 1, 1]'] or sm.orelse:
+        _te('default sizemults', sm)
+    mw = _one(sb, lambda s: isinstance(s, ast.If) and _u(s.test) == 'minwidth is not None', 'minwidth')
+    ev = _one(sb, lambda s: isinstance(s, ast.If) and _u(s.test).startswith('even and'), 'even')
+    if not (mw.body and _u(mw.body[0]) == 'mult = int(np.ceil(minwidth / self.rcellwidth))') or mw.orelse:
+        _te('minwidth: mult = int(np.ceil(minwidth / self.rcellwidth))', mw)
+    CUR = 'sizemults[self.cutindex]'
+
+    def iex(n, env):
+        k = _u(n)
+        if k in env:
+            return env[k]
+        if isinstance(n, ast.Constant) and isinstance(n.value, int) and not isinstance(n.value, bool):
+            return str(n.value)
+        if isinstance(n, ast.Call) and _u(n.func) == 'np.abs' and len(n.args) == 1:
+            return f'(({iex(n.args[0], env)}).natAbs : Int)'
+        if isinstance(n, ast.Call) and _u(n.func) == 'np.sign' and len(n.args) == 1:
+            return f'Int.sign ({iex(n.args[0], env)})'
+        if isinstance(n, ast.BinOp) and type(n.op) in (ast.Mult, ast.Add, ast.Sub, ast.Mod):
+            o = {ast.Mult: '*', ast.Add: '+', ast.Sub: '-', ast.Mod: '%'}[type(n.op)]
+            return f'({iex(n.left, env)} {o} {iex(n.right, env)})'
+        _te('multiplier expression', n)
+
+    def icond(n, env):
+        if isinstance(n, ast.BoolOp) and isinstance(n.op, ast.And):
+            return '(' + ' ∧ '.join(icond(v, env) for v in n.values) + ')'
+        if _u(n) == 'even':
+            return 'even = true'
+        if isinstance(n, ast.Compare) and len(n.ops) == 1 and type(n.ops[0]) in (ast.Gt, ast.Lt, ast.Eq):
+            o = {ast.Gt: '>', ast.Lt: '<', ast.Eq: '='}[type(n.ops[0])]
+            return f'{iex(n.left, env)} {o} {iex(n.comparators[0], env)}'
+        _te('multiplier condition', n)
+
+    def run(stmts, env, ind):
+        pad = ' ' * ind
+        if not stmts:
+            return pad + env[CUR]
+        s, rest = stmts[0], stmts[1:]
+        if isinstance(s, ast.If):
+            return (f'{pad}if {icond(s.test, env)} then\n{run(s.body + rest, env, ind + 2)}\n{pad}else\n'
+                    f'{run(s.orelse + rest, env, ind + 2)}')
+        if isinstance(s, ast.Assign) and len(s.targets) == 1 and _u(s.targets[0]) in ('sizemult', CUR):
+            return run(rest, {**env, _u(s.targets[0]): iex(s.value, env)}, ind)
+        if isinstance(s, ast.AugAssign) and _u(s.target) == CUR and isinstance(s.op, (ast.Add, ast.Sub)):
+            o = '+' if isinstance(s.op, ast.Add) else '-'
+            return run(rest, {**env, CUR: f'({env[CUR]} {o} {iex(s.value, env)})'}, ind)
+        _te('multiplier statement', s)
+    if not (sm.lineno < mw.lineno < ev.lineno):
+        _te('surface(): default sizemults / minwidth / even out of order')
+    out.append('/-- the multiplier along the cut after the `minwidth` and `even` blocks (`ceilq` = `int(np.ceil(minwidth /\n'
+               '    rcellwidth))`, `none` when `minwidth` is not given; `m` = `sizemults[cutindex]` handed in). -/\n'
+               'def cutMult (m : Int) (ceilq : Option Int) (even : Bool) : Int :=\n  match ceilq with\n'
+               '  | some mult =>\n' + run(mw.body[1:] + [ev], {CUR: 'm', 'mult': 'mult'}, 4) + '\n'
+               '  | none =>\n' + run([ev], {CUR: 'm'}, 4) + '\n')
+    # build order, pbc, vacuum
+    def line(text, what):
+        return _one(sb, lambda s: _u(s) == text, what).lineno
+    l1 = line('system = self.rcell.supersize(*sizemults)', 'supersize')
+    l2 = line('system.atoms.pos += shift', 'shift of the atoms')
+    l3 = line('system.wrap()', 'wrap')
+    l4 = line('system.pbc = [True, True, True]', 'pbc on')
+    l5 = line('system.pbc[self.cutindex] = False', 'pbc off across the cut')
+    vc = _one(sb, lambda s: isinstance(s, ast.If) and _u(s.test) == 'vacuumwidth is not None', 'vacuum')
+    l7 = line('self.__system = system', 'store system')
+    if not (ev.lineno < l1 < l2 < l3 < l4 < l5 < vc.lineno < l7):
+        _te('surface(): supersize / shift / wrap / pbc / vacuum / store out of order')
+    out.append('/-- pbc of the built system. -/\ndef surfacePbc (cut : Cut) : List Bool := ([true, true, true] : List Bool).set (cutIndex cut) false\n')
+    ov = [_u(s) for s in sb if 'ovect' in _u(s) and isinstance(s, ast.Assign)]
+    if ov[:2] != ['ovect = np.zeros(3)', 'ovect[self.cutindex] = 1.0']:
+        _te(f'ovect: {ov}')
+    vb = vc.body
+    if not (len(vb) == 5 and isinstance(vb[0], ast.If) and len(vb[0].body) == 1 and isinstance(vb[0].body[0], ast.Raise)
+            and _u(vb[0].body[0].exc).startswith('ValueError(') and not vb[0].orelse
+            and _u(vb[1]) == 'newvects = system.box.vects' and isinstance(vb[2], ast.AugAssign)
+            and _u(vb[2].target) == 'newvects[self.cutindex, self.cutindex]' and isinstance(vb[2].op, (ast.Add, ast.Sub))
+            and _is_assign(vb[3], 'neworigin') and _u(vb[4]) == 'system.box_set(vects=newvects, origin=neworigin)'):
+        _te('vacuum block', vc)
+    ex = _Ex({'vacuumwidth': ('vac', 'K'), 'system.box.origin': ('box.origin', 'V'), 'ovect': ('(unitV (cutIndex cut))', 'V')})
+    out.append('section\nvariable {K : Type} [Add K] [Sub K] [Mul K] [Div K] [Neg K] [Zero K] [IntCast K] [LT K] [DecidableLT K]\n')
+    out.append(f'/-- refusal of the vacuum width. -/\ndef vacuumRefuses (vac : K) : Prop := {ex.cmp(vb[0].test)}\n')
+    o = '+' if isinstance(vb[2].op, ast.Add) else '-'
+    out.append('/-- box after the vacuum insertion. -/\ndef vacuumBox (cut : Cut) (box : Box K) (vac : K) : Box K :=\n'
+               f'  ⟨setDiag box.vects (cutIndex cut) (fun x => x {o} {ex.tr(vb[2].value)[0]}), {ex.tr(vb[3].value)[0]}⟩\n')
+    out.append('end\n')
+    # set_shift
+    ss = _find_fn(tree, 'set_shift', 'FreeSurface')
+    out.append(_sig_def('setShiftSignature', ss))
+    b = _nodoc(ss.body)
+    okk = (len(b) == 1 and isinstance(b[0], ast.If) and _u(b[0].test) == 'shift is not None'
+           and len(b[0].body) == 2 and _u(b[0].body[0].test) == 'shiftindex is not None'
+           and isinstance(b[0].body[0].body[0], ast.Raise) and _u(b[0].body[0].body[0].exc).startswith('ValueError(')
+           and _u(b[0].body[1].test) == 'shiftscale is True'
+           and _u(b[0].body[1].body[0]) == 'self.__shift = miller.vector_crystal_to_cartesian(shift, self.rcell.box)'
+           and _u(b[0].body[1].orelse[0]) == 'self.__shift = np.asarray(shift)'
+           and len(b[0].orelse) == 1 and _u(b[0].orelse[0].test) == 'shiftindex is not None'
+           and _u(b[0].orelse[0].body[0]) == 'self.__shift = self.shifts[shiftindex]'
+           and _u(b[0].orelse[0].orelse[0]) == 'self.__shift = self.shifts[0]')
+    if not okk:
+        _te('set_shift: branch structure changed')
+    out.append('/-- `set_shift`: the branch taken for (shift given?, shiftindex given?, `shiftscale is True`). -/\n'
+               'def setShiftBranch (shift idx : Bool) (scale : Bool) : String :=\n'
+               '  if shift then (if idx then "ValueError" else if scale then "crystal_to_cartesian(shift, rcell.box)" else "shift")\n'
+               '  else if idx then "shifts[shiftindex]" else "shifts[0]"\n')
+    return out
+
+
+def _gen_sf(src):
+    tree = _parse(src)
+    out = []
+    init = _find_fn(tree, '__init__', 'StackingFault')
+    out.append(_sig_def('stackingFaultInitSignature', init))
+    # a1index, a2index
+    _, br = _chain_by_cut(list(ast.walk(init)), 'StackingFault.__init__')
+    rows = {}
+    for c, bd in br.items():
+        if not (len(bd) == 1 and isinstance(bd[0], ast.Assign) and isinstance(bd[0].targets[0], ast.Tuple)
+                and [_u(e) for e in bd[0].targets[0].elts] == ['a1index', 'a2index']
+                and isinstance(bd[0].value, ast.Tuple) and all(_u(e) in '012' for e in bd[0].value.elts)):
+            _te('a1index, a2index', bd[0])
+        rows[c] = '(' + ', '.join(_u(e) for e in bd[0].value.elts) + ')'
+    out.append(_cut_match('aIndex', 'Nat × Nat', rows, 'rows of the rotated cell used as `a1vect`, `a2vect`.'))
+    # setters
+    atoms = {'value': ('v', 'K'), 'faultpos_rel': ('r', 'K'), 'self.faultpos_rel': ('r', 'K'),
+             'self.faultpos_cart': ('fp', 'K'), 'self.system.box.origin[self.cutindex]': ('org', 'K'),
+             'self.system.box.vects[self.cutindex, self.cutindex]': ('w', 'K'),
+             'self.system.atoms.pos[:, self.cutindex]': ('x', 'K')}
+    ex = _Ex(atoms)
+    rel = _nodoc(_find_fn(tree, 'faultpos_rel', 'StackingFault', setter=True).body)
+    car = _nodoc(_find_fn(tree, 'faultpos_cart', 'StackingFault', setter=True).body)
+
+    def refusal(s):
+        return (isinstance(s, ast.If) and len(s.body) == 1 and isinstance(s.body[0], ast.Raise)
+                and _u(s.body[0].exc).startswith('ValueError(') and not s.orelse)
+    if not (len(rel) == 4 and refusal(rel[0]) and _u(rel[1]) == 'self.__faultpos_rel = value'
+            and _is_assign(rel[2], 'self.__faultpos_cart') and _is_assign(rel[3], 'self.__abovefault')):
+        _te('faultpos_rel setter: statements / order changed')
+    if not (len(car) == 5 and _is_assign(car[0], 'faultpos_rel') and refusal(car[1])
+            and _u(car[2]) == 'self.__faultpos_rel = faultpos_rel' and _u(car[3]) == 'self.__faultpos_cart = value'
+            and _is_assign(car[4], 'self.__abovefault')):
+        _te('faultpos_cart setter: statements / order changed')
+    out.append('section\nvariable {K : Type} [Add K] [Sub K] [Mul K] [Div K] [Neg K] [Zero K] [IntCast K] [LT K] [DecidableLT K]\n')
+    out.append(f'/-- refusal test of the `faultpos_rel` setter. -/\ndef relOutside (v : K) : Prop := {ex.cmp(rel[0].test)}\n')
+    out.append(f'/-- refusal test of the `faultpos_cart` setter (on the relative position it computed). -/\ndef cartOutside (r : K) : Prop := {ex.cmp(car[1].test)}\n')
+    out.append(f'/-- `faultpos_cart` from `faultpos_rel` (`org`, `w`: origin and width of the system along the cut). -/\ndef cartOfRel (org w r : K) : K := {ex.tr(rel[2].value)[0]}\n')
+    out.append(f'/-- `faultpos_rel` from `faultpos_cart`. -/\ndef relOfCart (org w v : K) : K := {ex.tr(car[0].value)[0]}\n')
+    m1, m2 = ex.cmp(rel[3].value), ex.cmp(car[4].value)
+    if m1 != m2:
+        _te(f'the two setters compute different masks: {m1} / {m2}')
+    out.append(f'/-- `abovefault` of one atom with coordinate `x` along the cut. -/\ndef above (fp x : K) : Prop := {m1}\n')
+    # surface(): the fault-position block
+    sf = _nodoc(_find_fn(tree, 'surface', 'StackingFault').body)
+    texts = [_u(s) for s in sf]
+    want = ['self.__faultpos_cart = None', 'self.__faultpos_rel = None', 'self.__abovefault = None']
+    if not (isinstance(sf[0], ast.Expr) and _u(sf[0]).startswith('super().surface(') and texts[1:4] == want
+            and len(sf) == 6 and isinstance(sf[4], ast.If) and _u(sf[5]) == 'return self.system'):
+        _te('StackingFault.surface: base call / forgetting the old plane / position block changed')
+    blk = sf[4]
+    okk = (_u(blk.test) == 'faultpos_cart is not None' and len(blk.body) == 2
+           and _u(blk.body[0].test) == 'faultpos_rel is not None' and isinstance(blk.body[0].body[0], ast.Raise)
+           and _u(blk.body[1]) == 'self.faultpos_cart = faultpos_cart' and len(blk.orelse) == 1
+           and _u(blk.orelse[0].test) == 'faultpos_rel is not None'
+           and _u(blk.orelse[0].body[0]) == 'self.faultpos_rel = faultpos_rel'
+           and len(blk.orelse[0].orelse) == 1 and _is_assign(blk.orelse[0].orelse[0], 'self.faultpos_rel'))
+    if not okk:
+        _te('StackingFault.surface: fault-position block changed')
+    out.append(f'/-- default `faultpos_rel` of `surface()`. -/\ndef defaultFaultposRel : K := {ex.tr(blk.orelse[0].orelse[0].value)[0]}\n')
+    # fault()
+    ft = _find_fn(tree, 'fault', 'StackingFault')
+    out.append('end\n')
+    out.append(_sig_def('faultSignature', ft))
+    fb = _nodoc(ft.body)
+    pre = [_u(s.test) for s in fb[:3] if isinstance(s, ast.If)]
+    if pre != ['a1vect_uvw is not None', 'a2vect_uvw is not None', 'faultpos_cart is not None']:
+        _te(f'fault(): overrides at the head are {pre}')
+    out.append(f'/-- the overrides at the head of `fault()` in coded order. -/\ndef faultPreludeOrder : List String := {_lean_strs(pre)}\n')
+    cs = _one(fb, lambda s: isinstance(s, ast.If) and 'outofplane is not None' in _u(s.test), 'fault shift')
+    if _u(cs.test) != 'a1 is not None or a2 is not None or outofplane is not None':
+        _te('fault(): test for coefficients', cs.test)
+    bd = cs.body
+    dfl = {}
+    okk = (len(bd) == 5 and _u(bd[0].test) == 'faultshift is not None' and isinstance(bd[0].body[0], ast.Raise)
+           and _u(bd[0].body[0].exc).startswith('ValueError('))
+    for s, nm in zip(bd[1:4], ('a1', 'a2', 'outofplane')):
+        okk = okk and isinstance(s, ast.If) and _u(s.test) == f'{nm} is None' and len(s.body) == 1 \
+            and _is_assign(s.body[0], nm) and isinstance(s.body[0].value, ast.Constant) and not s.orelse
+        if okk:
+            dfl[nm] = s.body[0].value.value
+    okk = okk and _is_assign(bd[4], 'faultshift') and len(cs.orelse) == 1 \
+        and _u(cs.orelse[0].test) == 'faultshift is None' \
+        and _u(cs.orelse[0].body[0]) == 'faultshift = np.array([0.0, 0.0, 0.0])' and not cs.orelse[0].orelse
+    if not okk:
+        _te('fault(): shift resolution changed')
+    ex = _Ex({'a1': (f'(a1.getD {_Ex({}).num(dfl["a1"])})', 'K'), 'a2': (f'(a2.getD {_Ex({}).num(dfl["a2"])})', 'K'),
+              'outofplane': (f'(oop.getD {_Ex({}).num(dfl["outofplane"])})', 'K'),
+              'self.a1vect_cart': ('a1c', 'V'), 'self.a2vect_cart': ('a2c', 'V'), 'ovect': ('(unitV (cutIndex cut))', 'V')})
+    out.append('section\nvariable {K : Type} [Add K] [Sub K] [Mul K] [Div K] [Neg K] [Zero K] [IntCast K] [LT K] [DecidableLT K]\n')
+    out.append('/-- the shift `fault()` applies: coefficients (missing ones default to the coded constants) or `faultshift`,\n'
+               '    both -> ValueError, neither -> zero. -/\n'
+               'def resolveFShift (a1 a2 oop : Option K) (fs : Option (V3 K)) (a1c a2c : V3 K) (cut : Cut) : Except String (V3 K) :=\n'
+               '  if a1.isSome ∨ a2.isSome ∨ oop.isSome then\n    match fs with\n    | some _ => .error "value"\n'
+               f'    | none => .ok {ex.tr(bd[4].value)[0]}\n  else\n    match fs with\n    | none => .ok ⟨0, 0, 0⟩\n    | some v => .ok v\n')
+    seq = ['sfsystem = deepcopy(self.system)', 'sfsystem.atoms.pos[self.abovefault] += faultshift', 'sfsystem.wrap()']
+    ls = [_one(fb, lambda s, t=t: _u(s) == t, t).lineno for t in seq]
+    if not (cs.lineno < ls[0] < ls[1] < ls[2]):
+        _te('fault(): deepcopy / shift of the cached mask / wrap out of order')
+    out.append(f'/-- the body of `fault()` after the shift is known. -/\ndef faultCoreSteps : List String := {_lean_strs(seq)}\n')
+    # inindex and the push
+    lp = _one(fb, lambda s: isinstance(s, ast.For) and _u(s.iter) == 'range(3)', 'inindex loop')
+    if [_u(s) for s in lp.body] != ['if i != self.cutindex:\n    inindex.append(i)']:
+        _te('inindex loop', lp)
+    out.append('/-- the two in-plane Cartesian indices, ascending. -/\ndef inIndex (cut : Cut) : List Nat := (List.range 3).filter (fun i => i ≠ cutIndex cut)\n')
+    allst = list(ast.walk(ft))
+    nw = _one(allst, lambda s: _is_assign(s, 'new'), 'push: new')
+    oo = _one(allst, lambda s: _is_assign(s, 'outofplane') and 'new' in _u(s.value), 'push: outofplane')
+    if not (isinstance(nw.value, ast.BinOp) and isinstance(nw.value.op, ast.Pow) and _u(nw.value.right) == '0.5'):
+        _te('push: new is not a square root', nw.value)
+    ex = _Ex({'minimum_r': ('r', 'K'), 'dvect_min[inindex[0]]': ('(d.get ((inIndex cut).getD 0 0))', 'K'),
+              'dvect_min[inindex[1]]': ('(d.get ((inIndex cut).getD 1 0))', 'K'), 'new': ('sq', 'K'),
+              'dvect_min[self.cutindex]': ('(d.get (cutIndex cut))', 'K')})
+    out.append(f'/-- radicand of the `minimum_r` push. -/\ndef pushRadicand (cut : Cut) (r : K) (d : V3 K) : K := {ex.tr(nw.value.left)[0]}\n')
+    out.append(f'/-- extra out-of-plane shift (`sq` = the square root). -/\ndef pushAmount (cut : Cut) (sq : K) (d : V3 K) : K := {ex.tr(oo.value)[0]}\n')
+    out.append('end\n')
+    # iterfaultmap
+    im = _find_fn(tree, 'iterfaultmap', 'StackingFault')
+    out.append(_sig_def('iterfaultmapSignature', im))
+    mb = _nodoc(im.body)
+    dd = {}
+    for s in mb:
+        if isinstance(s, ast.If) and _u(s.test) in ('num_a1 is None', 'num_a2 is None'):
+            dd[_u(s.test)[:6]] = _u(s.body[0])
+    if dd != {'num_a1': 'num_a1 = 1', 'num_a2': 'num_a2 = 1'}:
+        _te(f'iterfaultmap defaults: {dd}')
+    mg = _one(mb, lambda s: isinstance(s, ast.Assign) and isinstance(s.targets[0], ast.Tuple)
+              and [_u(e) for e in s.targets[0].elts] == ['a1s', 'a2s'], 'meshgrid')
+    if _u(mg.value) != 'np.meshgrid(np.linspace(0, 1, num_a1, endpoint=False), np.linspace(0, 1, num_a2, endpoint=False))':
+        _te('iterfaultmap mesh', mg.value)
+    lp = _one(mb, lambda s: isinstance(s, ast.For), 'iterfaultmap loop')
+    if [_u(e) for e in getattr(lp.target, 'elts', [])] != ['a1', 'a2'] or _u(lp.iter) != 'zip(a1s.flat, a2s.flat)' or len(lp.body) != 1 \
+            or _u(lp.body[0]) != 'yield (a1, a2, self.fault(a1=a1, a2=a2, outofplane=outofplane, minimum_r=minimum_r))':
+        _te('iterfaultmap loop', lp)
+    out.append('/-- `iterfaultmap`: default counts and the point `(i / num_a1, j / num_a2)` of `np.meshgrid(linspace(0, 1, num_a1,\n'
+               '    endpoint=False), linspace(0, 1, num_a2, endpoint=False))` flattened row-major (`a2` outer, `a1` inner). -/\n'
+               'def mapDefaults : Nat × Nat := (1, 1)\n')
+    return out
+
+
+def translate():
+    head = ['/- GENERATED by harness/props/c14.py (translate) from atomman/defect/free_surface_basis.py, FreeSurface.py,',
+            '   StackingFault.py — do not edit.  Proofs/C14_Source.lean proves these definitions equal to the hand model. -/',
+            'import Atomman.C14', 'set_option linter.unusedVariables false', 'namespace Atomman.Gen.C14',
+            'open Atomman Atomman.C14', '',
+            'section', 'variable {K : Type} [Add K] [Sub K] [Mul K] [Zero K] [LT K] [DecidableLT K] [DecidableEq K]',
+            '/-- `angle < c_angle` of the first search for a candidate with `d = cart·n`, `m2 = |cart|²` against the best so far',
+            '    (`none`: `c_angle` still at its initial 90 degrees): positive side, and a larger squared cosine. -/',
+            'def angleLt (c : Option (CBest K)) (d m2 : K) : Prop :=',
+            '  0 < d ∧ match c with | none => True | some cb => cb.d * cb.d * m2 < d * d * cb.m2',
+            'instance (c : Option (CBest K)) (d m2 : K) : Decidable (angleLt c d m2) := by',
+            '  unfold angleLt; cases c <;> infer_instance',
+            '/-- `np.isclose(angle, 0.0)` / `np.isclose(angle, 180.0)` for exact reals. -/',
+            'def Parallel (a b : V3 K) : Prop := V3.cross a b = ⟨0, 0, 0⟩ ∧ 0 < V3.dot a b',
+            'def AntiParallel (a b : V3 K) : Prop := V3.cross a b = ⟨0, 0, 0⟩ ∧ V3.dot a b < 0',
+            'instance (a b : V3 K) : Decidable (Parallel a b) := by unfold Parallel; infer_instance',
+            'instance (a b : V3 K) : Decidable (AntiParallel a b) := by unfold AntiParallel; infer_instance',
+            'end', '']
+    parts = head + _gen_fsb(cm.source(_FSB)) + _gen_fs(cm.source(_FS)) + _gen_sf(cm.source(_SF)) + ['end Atomman.Gen.C14', '']
+    return {'SurfaceSource': '\n'.join(parts)}
 
 
 # ----------------------------------------------------------------------------------------
@@ -3014,5 +3936,7 @@ MANIFEST = {
             'exact comparisons (float ties handled relationally in the correspondence); floor and sqrt are parameters with '
             'their defining inequalities; rotate/normalize of the unit cell are C04/C05 (here checked on the real objects '
             'by a site census). See docs/C14.md.',
-    'technique': 'Lean 4 theorems over a hand-written model + differential correspondence + exact clause oracle',
+    'technique': 'Lean 4 theorems over a model whose branches, orders, defaults and formulas are regenerated from the '
+                 'source with ast on every run and proved equal to it (gen_..._eq_model) + differential correspondence '
+                 '+ exact clause oracle',
 }
